@@ -1,4 +1,5 @@
 import gfapy
+import math
 import re
 
 class NumericArray(list):
@@ -69,6 +70,13 @@ class NumericArray(list):
       If the array is not valid
     """
     self.compute_subtype()
+    for e in self:
+      if isinstance(e, bool) or \
+          (isinstance(e, float) and not math.isfinite(e)):
+        raise gfapy.ValueError(
+          "NumericArray contains a value which cannot be represented: "+
+          "{}\n".format(repr(e))+
+          "Content: {}".format(repr(self)))
 
   def compute_subtype(self):
     """
